@@ -55,7 +55,16 @@ def run(ev, vd):
     rc, out, dt = sh([dbin("dser"), trs, str(ev.seed), tier()], timeout=1200, env=env)
     if rc != 0:
         vd.violation(dict(component="serialize", op="crash"), "serialisation harness crashed rc=%d: %s" % (rc, out[-300:]), dict(out=out[-1500:]))
-    if os.path.exists(trs):
+    if os.path.exists(trs) and os.path.getsize(trs) > 0:
+        # (a crashed harness may leave a truncated last line behind)
+        good = []
+        for line in open(trs, errors="replace"):
+            try:
+                json.loads(line); good.append(line if line.endswith("\n") else line + "\n")
+            except Exception:
+                pass
+        open(trs, "w").writelines(good)
+    if os.path.exists(trs) and os.path.getsize(trs) > 0:
         res = tv.validate_sharded(os.path.join(SP, "TraceSerialize.tla"), trs, timeout=1200)
         ev.cov["traces_validated_against_impl"] += res["records"] - len(res["rejects"])
         ev.cov["states"] += res["states"]; ev.cov["transitions"] += res["generated"]
@@ -83,12 +92,15 @@ def run(ev, vd):
     with open(trn, "w") as fo:
         run_id = 0
         for hosts in (1, 2, 3, 4):
-            for rep in range(3 if tier() == "thorough" else 1):
+            # second repetition: without the on-node single-copy transfer, so that large receives complete asynchronously
+            # (as on a real interconnect) and small messages can finish before earlier large ones
+            for rep in range(4 if tier() == "thorough" else 2):
                 run_id += 1
                 prefix = os.path.join(BUILD, "tmp", "dnet_r%d" % run_id)
                 for p in glob.glob(prefix + ".*.ndjson"):
                     os.remove(p)
-                rc, out, dt = sh(MPIRUN + ["-n", str(hosts), dbin("dnet"), prefix, str(ev.seed * 10 + run_id), tier()], timeout=1500, env=env)
+                env2 = dict(env, OMPI_MCA_btl_vader_single_copy_mechanism="none") if rep % 2 == 1 else env
+                rc, out, dt = sh(MPIRUN + ["-n", str(hosts), dbin("dnet"), prefix, str(ev.seed * 10 + run_id), tier()], timeout=1500, env=env2)
                 if rc == 124:
                     vd.violation(dict(component="network", op="hang", hosts=hosts), "network harness with %d hosts did not finish" % hosts, dict(out=out[-1500:]))
                 nrec += merge_net(prefix, hosts, run_id, fo)
